@@ -614,6 +614,43 @@ pub mod std {
         pub use ::std::io::Error;
         pub use ::std::io::ErrorKind;
         pub use ::std::io::Result;
+        use super::super::*;
+
+        pub enum SeekFrom {
+            Start(u64),
+            End(i64),
+            Current(i64),
+        }
+
+        /// lseek(2) on our File stand-in: the handle keeps denoting the same inode; `Start(n)` positions it at n.
+        pub trait Seek: Sized {
+            fn seek(&mut self, pos: SeekFrom, Tracked(w): Tracked<&mut World>) -> (r: Result<u64>)
+                requires
+                    old(w).inv(),
+                ensures
+                    final(w).inv(),
+                    final(w).same_fs(*old(w)),
+                    final(w).kept(*old(w)) && final(w).listed == old(w).listed && final(w).published == old(w).published && final(w).now == old(w).now,
+                    final(w).opens == old(w).opens && final(w).steps == old(w).steps + 1,
+                    final(w).hard_faults == old(w).hard_faults + if r.is_err() { 1nat } else { 0nat },
+                    old(self).seek_ok(*old(self), *final(self), pos, r),
+            ;
+
+            spec fn seek_ok(&self, before: Self, after: Self, pos: SeekFrom, r: Result<u64>) -> bool;
+        }
+
+        impl Seek for std::fs::File {
+            open spec fn seek_ok(&self, before: Self, after: Self, pos: SeekFrom, r: Result<u64>) -> bool {
+                &&& after.ino() == before.ino()
+                &&& after.can_write() == before.can_write()
+                &&& (r.is_ok() && pos is Start ==> after.offset() == pos->Start_0)
+            }
+
+            #[verifier::external_body]
+            fn seek(&mut self, pos: SeekFrom, Tracked(w): Tracked<&mut World>) -> (r: Result<u64>) {
+                unimplemented!()
+            }
+        }
     }
 
     pub mod fs {
@@ -720,6 +757,9 @@ pub mod std {
 
             pub uninterp spec fn can_write(&self) -> bool;
 
+            /// Read/write position of the descriptor.
+            pub uninterp spec fn offset(&self) -> nat;
+
             /// open(path, O_RDONLY).  The access time may or may not be advanced by the kernel
             /// (strict atime, relatime, noatime): both outcomes are allowed here, for every call.
             #[verifier::external_body]
@@ -738,6 +778,7 @@ pub mod std {
                             &&& old(w).files.contains_key(pv(p))
                             &&& f.ino() == old(w).files[pv(p)]
                             &&& !f.can_write()
+                            &&& f.offset() == 0
                             &&& final(w).hard_faults == old(w).hard_faults
                             &&& final(w).files == old(w).files
                             &&& final(w).dirs == old(w).dirs
